@@ -131,7 +131,7 @@ PROFILES = {
     "C03": [("diamonds", dict(n_defs=(6, 16), sends_per_txn=(2, 4), samples=0.3, wfchecks=0.5, intxn_defs=0.3, n_listen=(2, 5),
                               weights=W(lift2=6, liftn=2, merge=6, snapshot=3, mapc=3, map=3, csink=4, ssink=4, hold=2, switchs=1, switchc=1, sloop=0.7, cloop=0.7)))],
     "C04": [("cells", dict(samples=0.9, n_txn=(5, 20), intxn_defs=0.3, n_listen=(0, 2),
-                           weights=W(hold=4, holdlazy=1.5, accum=3, collect=3, snapshot=4, csink=3, gate=1.5, mapc=1, lift2=1))),
+                           weights=W(hold=4, holdlazy=1.5, accum=3, collect=3, accumlazy=1.5, collectlazy=1, snapshot=4, csink=3, gate=1.5, mapc=1, lift2=1))),
             ("cells-deferred", dict(samples=0.6, n_txn=(4, 12), posts=0.4, max_defer=2, n_listen=(1, 3), sends_per_txn=(1, 3),
                                     weights=W(defer=4, split=2, hold=4, accum=3, collect=2, snapshot=5, snapshot1=1, csink=3, gate=1.5, map=2))),
     ],
@@ -152,8 +152,8 @@ PROFILES = {
     "C14": [("brackets-deferred", dict(scoped=0.6, deep_nest=0.5, nest=0.9, obs=0.7, max_defer=3, posts=0.3, weights=W(defer=5, split=3, hold=2, csink=2))),
             ("brackets", dict(scoped=0.7, deep_nest=0.7, nest=0.95, obs=0.6, intxn_defs=0.3, n_txn=(4, 10), malformed=False))],
     "C15": [("sinks", dict(coalesce_sends=True, sends_per_txn=(1, 5), deep_nest=0.4, scoped=0.3, nest=0.8, samples=0.5, weights=W(ssinkc=6, csink=4, ssink=2, hold=3)))],
-    "C17": [("lazies", dict(lazies=0.9, samples=0.3, n_txn=(4, 14), weights=W(mapc=4, lift2=3, liftn=1, holdlazy=3, hold=3, csink=4, accum=2, cloop=1)))],
-    "C18": [("router", dict(n_defs=(4, 10), drops=0.3, gcs=0.3, drop_routers=0.3, weights=W(router=5, ssink=4, map=3, merge=3, hold=1)))],
+    "C17": [("lazies", dict(lazies=0.9, samples=0.3, n_txn=(4, 14), weights=W(mapc=4, lift2=3, liftn=1, holdlazy=3, hold=3, csink=4, accum=2, accumlazy=2, collectlazy=1, cloop=1)))],
+    "C18": [("router", dict(n_defs=(4, 10), drops=0.3, gcs=0.3, drop_routers=0.3, weights=W(router=5, route=4, ssink=4, map=3, merge=3, hold=1)))],
     "C06": [("drops", dict(drops=0.8, gcs=0.5, memchecks=0.5, n_defs=(5, 14), n_txn=(4, 12),
                            weights=W(sloop=1.5, cloop=1.5, accum=2, collect=2, switchs=1.5, switchc=1, router=1, defer=1, lift2=2, hold=3, snapshot=3)))],
     "C07": [("periodic-switching", dict(n_defs=(4, 9), n_txn=(0, 2), n_listen=(1, 3), periodic=12, samples=0.0, obs=0.0, unlisten=0.0,
